@@ -29,7 +29,12 @@ func TestC13Rapid(t *testing.T) {
 			gp[rapid.IntRange(1, nGen-1).Draw(rt, "zeroAt")] = -1
 			c.Class("genesis-entry-without-power")
 		}
+		valWorldSecp = rapid.IntRange(0, 3).Draw(rt, "secpKeys") == 0
+		if valWorldSecp {
+			c.Class("chain-admitting-secp256k1-consensus-keys")
+		}
 		w, err := newValWorld(nGen, maxVals, uint32(rapid.SampledFrom([]int{0, 1, 3, 100}).Draw(rt, "retention")), gp...)
+		valWorldSecp = false
 		if err != nil {
 			rt.Fatalf("C13 violated at genesis: %v", err)
 		}
@@ -59,6 +64,12 @@ func TestC13Rapid(t *testing.T) {
 			c.Class("long-history-then-retention-cut")
 		}
 		repeatSteps(rt, 12, func(i int) {
+			if rapid.IntRange(0, 11).Draw(rt, "restart") == 0 {
+				if err := w.restart(); err != nil {
+					rt.Fatalf("C13 violated at the restart before block %d: %v\nhistory:\n%s", i, err, w.history())
+				}
+				c.Class("genesis-round-trip-between-blocks")
+			}
 			if err := w.runBlock(rt); err != nil {
 				rt.Fatalf("C13 violated in block %d: %v\nhistory:\n%s", i, err, w.history())
 			}
